@@ -440,7 +440,7 @@ fn exec_drain(t: &mut Trace, dec: &mut FrameDecoder, idx: usize, op: &Op, reader
                 t.delivered.extend_from_slice(&sink.accepted);
             }
             // two fully accepted writes in one drain call: the ring data was wrapped
-            if sink.full_accepts_since_mark >= 2 || (sink.calls_since_mark >= 2 && script.steps.is_empty()) {
+            if sink.full_accepts_since_mark >= 2 {
                 t.probes.wrapped_drains_writer += 1;
             }
             t.probes.partial_writes += sink.stats.partial;
@@ -501,12 +501,20 @@ fn finalize(t: &mut Trace, dec: &FrameDecoder) {
 }
 
 fn run_reader(dec: &mut FrameDecoder, input: &[u8], prog: &Program, nblocks_hint: Option<usize>, limits: &Limits) -> Trace {
+    run_reader_with_hook(dec, input, prog, nblocks_hint, limits, &mut |_| {})
+}
+
+/// reader front end; `after_init` runs right after a successful reset (e.g. force_dict)
+pub fn run_reader_with_hook(dec: &mut FrameDecoder, input: &[u8], prog: &Program, nblocks_hint: Option<usize>, limits: &Limits, after_init: &mut dyn FnMut(&mut FrameDecoder)) -> Trace {
     let mut t = Trace::new();
     let mut reader = SimReader::new(input, &prog.source);
     let r = guarded(|| dec.reset(&mut reader));
     let mut failed = false;
     match r {
-        Ok(Ok(())) => push_event(&mut t, OP_INIT, 100, Res::Ok(0, 0), 0, 0, reader.consumed(), dec),
+        Ok(Ok(())) => {
+            after_init(dec);
+            push_event(&mut t, OP_INIT, 100, Res::Ok(0, 0), 0, 0, reader.consumed(), dec)
+        }
         Ok(Err(e)) => {
             push_event(&mut t, OP_INIT, 100, Res::Err(errstr(&e)), 0, 0, reader.consumed(), dec);
             absorb_reader_stats(&mut t, &reader);
@@ -937,10 +945,32 @@ fn run_oneshot(dec: &mut FrameDecoder, input: &[u8], prog: &Program) -> Trace {
 // -------------------------------------------------------------------------------------------------
 // program generation
 
+/// fault_rate: 0 = plain sink; 1..=100 = chance (out of 100) that a step of a call-scripted sink is a fault;
+/// fault_rate >= 1000 selects the byte-budgeted style only (behaviour independent of the ring layout; used where two
+/// decoders with different internal layouts must be compared call by call)
 pub fn gen_sink_script(r: &mut Rng, fault_rate: u32) -> SinkScript {
-    // fault_rate: 0 = plain, else chance (out of 100) that a step is not "All"
     if fault_rate == 0 || r.chance(1, 4) {
         return SinkScript::default();
+    }
+    if fault_rate >= 1000 || r.chance(1, 3) {
+        let piece = if r.chance(1, 2) { 0 } else { *r.pick(&[1u32, 2, 3, 7, 10, 64, 100, 1000, 4096]) };
+        let budget = if r.chance(2, 3) {
+            let b = match r.below(4) {
+                0 => 0,
+                1 => r.range(1, 64),
+                _ => r.size_log(1 << 17) as u64,
+            };
+            let then = match r.below(4) {
+                0 => SinkStep::Zero,
+                1 => SinkStep::Fail(FaultKind::WouldBlock),
+                2 => SinkStep::Fail(FaultKind::Interrupted),
+                _ => SinkStep::Fail(FaultKind::Other),
+            };
+            Some((b, then))
+        } else {
+            None
+        };
+        return SinkScript { steps: vec![], piece, budget };
     }
     let n = r.urange(1, 6);
     let mut steps = Vec::new();
@@ -958,7 +988,7 @@ pub fn gen_sink_script(r: &mut Rng, fault_rate: u32) -> SinkScript {
             steps.push(SinkStep::All);
         }
     }
-    SinkScript { steps }
+    SinkScript { steps, piece: 0, budget: None }
 }
 
 pub fn gen_chunks(r: &mut Rng) -> Vec<u32> {
@@ -1132,7 +1162,7 @@ pub fn shrink_ops(ops: &[Op]) -> Vec<Vec<Op>> {
     // simplify single ops
     for (i, op) in ops.iter().enumerate() {
         let simpler: Vec<Op> = match op {
-            Op::ToWriter(s) if !s.steps.is_empty() => vec![Op::ToWriter(SinkScript::default()), Op::Collect],
+            Op::ToWriter(s) if *s != SinkScript::default() => vec![Op::ToWriter(SinkScript::default()), Op::Collect],
             Op::ToWriter(_) => vec![Op::Collect],
             Op::Read(n) if *n > 1 => vec![Op::Read(n / 2), Op::Read(1)],
             Op::Decode(Strat::Bytes(n)) if *n > 1 => vec![Op::Decode(Strat::Bytes(n / 2)), Op::Decode(Strat::Blocks(1))],
